@@ -286,8 +286,20 @@ def _symlink_across_isolate_roots(case, violation):
     roots, so they count as two replicas; the target (and with it every other dropped member of the
     group, which is linked to the retained link) is then dropped/replaced while the link is retained.
     Accepted only when every violating path belongs to the content class of such a link's target."""
-    if "--isolate" not in case["gflags"] or "-S" not in case["gflags"]:
+    key, bad_classes = cross_root_link_classes(case)
+    if not bad_classes:
         return False
+    paths = violation.get("paths", [])
+    if violation["clause"] == "replicas-untouched":
+        return any(key.get(p) in bad_classes for p in paths)
+    return bool(paths) and all(key.get(p) in bad_classes for p in paths)
+
+
+def cross_root_link_classes(case):
+    """-> ({path: content key}, {content keys of files that a symbolic link under ANOTHER isolate root points
+    to}); empty unless the report was made with both -S and --isolate"""
+    if "--isolate" not in case["gflags"] or "-S" not in case["gflags"]:
+        return {}, set()
     import posixpath
     from ..world import content_key
     ents = case["world"]["entries"]
@@ -312,12 +324,7 @@ def _symlink_across_isolate_roots(case, violation):
                 links[e["p"]] = tgt
                 key[e["p"]] = key[tgt]
     bad_classes = {key[t] for l, t in links.items() if root_of(t) is not None and root_of(l) is not None and root_of(t) != root_of(l)}
-    if not bad_classes:
-        return False
-    paths = violation.get("paths", [])
-    if violation["clause"] == "replicas-untouched":
-        return any(key.get(p) in bad_classes for p in paths)
-    return bool(paths) and all(key.get(p) in bad_classes for p in paths)
+    return key, bad_classes
 
 
 KNOWN_PREDICATES = {"c02-symlink-and-target-in-different-isolate-roots": _symlink_across_isolate_roots}
